@@ -95,6 +95,13 @@ impl BashRunner {
     }
 }
 
+/// Whether the name of an environment variable can be used as the name of a shell variable
+fn is_shell_name(name: &str) -> bool {
+    !name.is_empty()
+        && !name.starts_with(|ch: char| ch.is_ascii_digit())
+        && name.chars().all(|ch| ch.is_ascii_alphanumeric() || ch == '_')
+}
+
 impl Runner for BashRunner {
     fn run(&self, name: &str, testcase: &TestCase, context: &ExecutionContext) -> Result<Output> {
         let shell = self.shell.to_owned();
@@ -105,6 +112,17 @@ impl Runner for BashRunner {
             .replace("{state_directory}", &state_directory_str)
             .replace("{name}", name)
             .replace("{excluded_variables}", &BASH_EXCLUDED_VARIABLES.join("|"))
+            .replace(
+                "{environment_names}",
+                &testcase
+                    .config
+                    .environment
+                    .keys()
+                    .filter(|name| is_shell_name(name))
+                    .map(|name| name.as_str())
+                    .collect::<Vec<_>>()
+                    .join(" "),
+            )
             .replace(
                 "{persist_state}",
                 if testcase.config.detached.unwrap_or(false) {
